@@ -181,7 +181,7 @@ class ShortStream:
         return self.src.readline(self.k if n is None or n < 0 else min(n, self.k))
 
 
-DELIVERIES = ['plain', 'body-read-first', 'body-sniffed-first', 'one-byte-reads', 'half-reads', 'chunked', 'chunked-3']
+DELIVERIES = ['plain', 'body-read-first', 'body-sniffed-first', 'one-byte-reads', 'half-reads', 'chunked', 'chunked-3', 'chunked-upper']
 
 
 def observe_forms(Request, body_text, qs='', ctype='rotate', delivery='plain'):
@@ -192,10 +192,12 @@ def observe_forms(Request, body_text, qs='', ctype='rotate', delivery='plain'):
     env = {'QUERY_STRING': qs, 'CONTENT_LENGTH': str(len(body)), 'wsgi.input': io.BytesIO(body), 'REQUEST_METHOD': 'POST'}
     if ctype is not None:
         env['CONTENT_TYPE'] = ctype
-    if delivery in ('chunked', 'chunked-3'):
-        # Transfer-Encoding: chunked, no Content-Length (one chunk / chunks of three bytes)
-        step = max(1, len(body)) if delivery == 'chunked' else 3
-        raw = b''.join(b'%x\r\n%s\r\n' % (len(body[i:i + step]), body[i:i + step]) for i in range(0, len(body), step)) + b'0\r\n\r\n'
+    if delivery in ('chunked', 'chunked-3', 'chunked-upper'):
+        # Transfer-Encoding: chunked, no Content-Length (one chunk / chunks of three bytes / chunks of 11 bytes with the sizes in
+        # upper-case hex and zero-padded)
+        step = max(1, len(body)) if delivery == 'chunked' else (3 if delivery == 'chunked-3' else 11)
+        fmt = b'0%X\r\n%s\r\n' if delivery == 'chunked-upper' else b'%x\r\n%s\r\n'
+        raw = b''.join(fmt % (len(body[i:i + step]), body[i:i + step]) for i in range(0, len(body), step)) + b'0\r\n\r\n'
         del env['CONTENT_LENGTH']
         env['HTTP_TRANSFER_ENCODING'] = 'chunked'
         env['wsgi.input'] = io.BytesIO(raw)
@@ -279,8 +281,14 @@ def hist_step(Request, q, use_forms, mutate):
                          'wsgi.input': io.BytesIO(body), 'REQUEST_METHOD': 'POST'})
             d = r.forms
         else:
-            r = Request({'QUERY_STRING': q})
+            # the query string is put in place through the item interface of a Request that has already parsed another one
+            r = Request({'QUERY_STRING': 'token=s3cr3t&a=old', 'wsgi.input': io.BytesIO(b''), 'CONTENT_LENGTH': '0', 'REQUEST_METHOD': 'GET'})
+            r.query
+            r.params
+            r['QUERY_STRING'] = q
             d = r.query
+            if _plain(r.params) != _plain(d):
+                return f'params {_plain(r.params)!r} differ from query {_plain(d)!r} after the query string was replaced'
         got = _plain(d)
         if mutate:
             for k, v in list(d.items()):
@@ -418,7 +426,7 @@ def replay(case):
         exp, _ = ref_decode(case['seq'][-1])
         if got == exp:
             return None
-        return (f'parsing the strings {case["seq"]!r} one after the other in one process ({case["mode"]}; each handler edits the dict it got in place): the last one gives '
+        return (f'parsing the strings {case["seq"]!r} one after the other in one process ({case["mode"]}; each handler edits the dict it got in place; a query string is put in place with request["QUERY_STRING"] = ... on a Request that has already parsed another one): the last one gives '
                 f'{got!r}, alone it must give {exp!r}')
     if case['kind'] == 'pairs':
         pairs = [tuple(p) for p in case['pairs']]
@@ -439,6 +447,7 @@ def replay(case):
         except Exception as e:   # noqa
             got = f'raised {type(e).__name__}: {e}'
         how = {'body-read-first': ' after the handler has read request.body completely', 'body-sniffed-first': ' after the handler has read 3 bytes of request.body',
+               'chunked-upper': ' (sent with Transfer-Encoding: chunked, 11-byte chunks, sizes in upper-case hex)',
                'chunked': ' (sent with Transfer-Encoding: chunked, one chunk)', 'chunked-3': ' (sent with Transfer-Encoding: chunked, chunks of 3 bytes)',
                'one-byte-reads': ' (wsgi.input answers every read with one byte)', 'half-reads': ' (wsgi.input answers every read with at most half of the body)'}.get(case.get('delivery'), '')
         return None if got == exp else f'pairs {pairs!r} encoded as {qs!r}: Request.{case["at"]}{how} gives {got!r}, expected {exp!r}'
